@@ -63,6 +63,10 @@ use std::{
 };
 
 const MAX_NODES: usize = 3;
+/// Keys of the kademlia options of a `node` line.
+const KAD_KEYS: [&str; 11] = ["rf", "ttl", "upd", "val", "mr", "mrs", "mpk", "mpa", "mppk", "pri", "pttl"];
+/// How long the record waits for the protocol objects to report themselves.
+const NOTES_DEADLINE: Duration = Duration::from_millis(4000);
 const REPLY_TIMEOUT: Duration = Duration::from_secs(3);
 
 // ---------------------------------------------------------------------------------------------
@@ -116,6 +120,7 @@ impl Shared {
         let mut ip4 = None;
         let mut port = None;
         let mut udp = false;
+        let mut dns = false;
         for component in address.iter() {
             match component {
                 Protocol::P2p(hash) => {
@@ -129,6 +134,7 @@ impl Shared {
                         Protocol::Ip4(ip) => ip4 = Some(*ip),
                         Protocol::Tcp(p) => port = Some(*p),
                         Protocol::Udp(_) => udp = true,
+                        Protocol::Dns4(name) if name.as_ref() == "127.0.0.1" => dns = true,
                         _ => {}
                     }
                     base = base.with(other);
@@ -150,6 +156,12 @@ impl Shared {
                     name = format!("pub{}", o[3]);
                 } else if o[0] == 127 && p == 1 {
                     name = "x".to_string();
+                } else if o[0] == 127 && (2..=9).contains(&p) {
+                    name = format!("x{p}");
+                }
+            } else if let (true, Some(p)) = (dns, port) {
+                if (1..=9).contains(&p) {
+                    name = format!("d{p}");
                 }
             }
         }
@@ -236,6 +248,7 @@ enum NodeCmd {
     PubAddr(Multiaddr, oneshot::Sender<String>),
     Bandwidth(oneshot::Sender<String>),
     Listen(oneshot::Sender<String>),
+    Scores(PeerId, oneshot::Sender<String>),
 }
 
 async fn node_task(ix: usize, mut litep2p: Litep2p, mut rx: UnboundedReceiver<NodeCmd>, shared: Arc<Shared>) {
@@ -266,11 +279,11 @@ async fn node_task(ix: usize, mut litep2p: Litep2p, mut rx: UnboundedReceiver<No
                     shared.push(ix, "app", format!("DF:{}:{}", shared.canon_addr(&address), err_word(&error)), false);
                 }
                 Some(Litep2pEvent::ListDialFailures { errors }) => {
-                    let mut parts: Vec<String> = errors
+                    // in the order reported = the order in which the attempts failed
+                    let parts: Vec<String> = errors
                         .iter()
                         .map(|(a, e)| format!("{}:{}", shared.canon_addr(a), err_word(e)))
                         .collect();
-                    parts.sort();
                     shared.push(ix, "app", format!("LDF:{}", parts.join("+")), false);
                 }
             },
@@ -309,6 +322,20 @@ async fn node_task(ix: usize, mut litep2p: Litep2p, mut rx: UnboundedReceiver<No
                     let sink = litep2p.bandwidth_sink();
                     let f = |n: usize| if n == 0 { "0" } else { "+" };
                     let _ = reply.send(format!("in={} out={}", f(sink.inbound()), f(sink.outbound())));
+                }
+                Some(NodeCmd::Scores(peer, reply)) => {
+                    // the manager's address book for `peer`: canonical address and current score
+                    let mut all: Vec<String> = match litep2p.transport_manager.peers.read().get(&peer) {
+                        None => Vec::new(),
+                        Some(context) => context
+                            .addresses
+                            .addresses
+                            .iter()
+                            .map(|(a, record)| format!("{}={}", shared.canon_addr(a), record.verif_score()))
+                            .collect(),
+                    };
+                    all.sort();
+                    let _ = reply.send(format!("scores=[{}]", all.join(",")));
                 }
                 Some(NodeCmd::Listen(reply)) => {
                     let all: Vec<String> = litep2p.listen_addresses().map(|a| shared.canon_addr(a)).collect();
@@ -450,6 +477,8 @@ async fn rr_task(
                     let _ = reply.send(r);
                 }
                 Some(RrCmd::Respond(k, payload, reply)) => {
+                    // `usize::MAX` = the newest request not answered yet
+                    let k = if k == usize::MAX { inbound.iter().rposition(|slot| slot.is_some()).unwrap_or(k) } else { k };
                     let r = match inbound.get_mut(k).and_then(|slot| slot.take()) {
                         None => "none".to_string(),
                         Some(id) => {
@@ -643,6 +672,7 @@ fn listen_spec(s: &str) -> Option<Vec<Multiaddr>> {
 
 impl NodeBox {
     pub fn new() -> Self {
+        crate::verif::enable_config_notes();
         Self {
             rt: Some(
                 tokio::runtime::Builder::new_multi_thread()
@@ -673,6 +703,12 @@ impl NodeBox {
         let nth = |s: &str| s.parse::<usize>().ok().and_then(|k| listen.get(k).cloned());
         if kind == "x" {
             return Some("/ip4/127.0.0.1/tcp/1".parse::<Multiaddr>().expect("addr").with(Protocol::P2p(peer.into())));
+        }
+        if let Some(k) = kind.strip_prefix('x').and_then(|k| k.parse::<u16>().ok()).filter(|k| (2..=9).contains(k)) {
+            return Some(format!("/ip4/127.0.0.1/tcp/{k}").parse::<Multiaddr>().expect("addr").with(Protocol::P2p(peer.into())));
+        }
+        if let Some(k) = kind.strip_prefix('d').and_then(|k| k.parse::<u16>().ok()).filter(|k| (1..=9).contains(k)) {
+            return Some(format!("/dns4/127.0.0.1/tcp/{k}").parse::<Multiaddr>().expect("addr").with(Protocol::P2p(peer.into())));
         }
         if kind == "q" {
             return Some(
@@ -734,13 +770,23 @@ impl NodeBox {
         let Some(listen) = listen_spec(kv.get("listen").copied().unwrap_or("1")) else {
             return "bad-op".into();
         };
-        struct NotifSpec { name: String, max: usize, hs: Vec<u8>, fb: Vec<ProtocolName>, mode: char }
+        struct NotifSpec {
+            name: String,
+            max: usize,
+            hs: Vec<u8>,
+            fb: Vec<ProtocolName>,
+            mode: char,
+            /// `None` = the builder's setter is not called
+            sync: Option<usize>,
+            asyn: Option<usize>,
+            dial: Option<bool>,
+        }
         struct RrSpec { name: String, max: usize, timeout: u64, fb: Vec<ProtocolName>, maxin: Option<usize> }
         let mut notifs = Vec::new();
         if let Some(s) = kv.get("notif") {
             for part in s.split(',') {
                 let f: Vec<&str> = part.split(':').collect();
-                if f.len() != 5 || f[0].is_empty() {
+                if (f.len() != 5 && f.len() != 8) || f[0].is_empty() {
                     return "bad-op".into();
                 }
                 let (Ok(max), Some(mode)) = (f[1].parse::<usize>(), f[4].chars().next()) else {
@@ -750,7 +796,16 @@ impl NodeBox {
                     return "bad-op".into();
                 }
                 let hs = if f[2] == "-" { Vec::new() } else { crate::verif::unhex(f[2]) };
-                notifs.push(NotifSpec { name: f[0].to_string(), max, hs, fb: names_of(f[3]), mode });
+                // 5 fields: channel sizes 64/64, dialing as the builder has it; 8 fields: `-` = setter not called
+                let (mut sync, mut asyn, mut dial) = (Some(64), Some(64), None);
+                if f.len() == 8 {
+                    let size = |x: &str| if x == "-" { Some(None) } else { x.parse::<usize>().ok().filter(|n| (1..=100_000).contains(n)).map(Some) };
+                    let (Some(a), Some(b)) = (size(f[5]), size(f[6])) else { return "bad-op".into() };
+                    sync = a;
+                    asyn = b;
+                    dial = match f[7] { "-" => None, "0" => Some(false), "1" => Some(true), _ => return "bad-op".into() };
+                }
+                notifs.push(NotifSpec { name: f[0].to_string(), max, hs, fb: names_of(f[3]), mode, sync, asyn, dial });
             }
         }
         let mut rrs = Vec::new();
@@ -780,21 +835,85 @@ impl NodeBox {
                 users.push((name.to_string(), codec));
             }
         }
+        // kad=<names|d>:<max|->[:<k~v/k~v…>] with k in rf ttl upd val mr mrs mpk mpa mppk pri pttl
         let mut kads = Vec::new();
         if let Some(s) = kv.get("kad") {
             for part in s.split(',') {
-                let Some((names, max)) = part.split_once(':') else { return "bad-op".into() };
+                let f: Vec<&str> = part.split(':').collect();
+                if f.len() != 2 && f.len() != 3 {
+                    return "bad-op".into();
+                }
+                let (names, max) = (f[0], f[1]);
                 let max = if max == "-" { None } else {
                     match max.parse::<usize>() { Ok(n) => Some(n), Err(_) => return "bad-op".into() }
                 };
-                kads.push((if names == "d" { Vec::new() } else { names_of(names) }, max));
+                let mut opts: Vec<(String, u64)> = Vec::new();
+                if f.len() == 3 {
+                    for item in f[2].split('/') {
+                        let Some((k, v)) = item.split_once('~') else { return "bad-op".into() };
+                        if !KAD_KEYS.contains(&k) {
+                            return "bad-op".into();
+                        }
+                        let v = match (k, v) {
+                            ("upd" | "val", "m") => 0,
+                            ("upd" | "val", "a") => 1,
+                            ("upd" | "val", _) => return "bad-op".into(),
+                            (_, v) => match v.parse::<u64>() {
+                                Ok(n) if n <= 1_000_000_000 => n,
+                                _ => return "bad-op".into(),
+                            },
+                        };
+                        opts.push((k.to_string(), v));
+                    }
+                }
+                kads.push((if names == "d" { Vec::new() } else { names_of(names) }, max, opts));
             }
         }
         let ping_ms = match kv.get("ping") {
             None | Some(&"0") => None,
             Some(s) => match s.parse::<u64>() { Ok(ms) => Some(ms), Err(_) => return "bad-op".into() },
         };
+        let ping_failures = match kv.get("pingf") {
+            None => None,
+            Some(s) => match s.parse::<usize>() { Ok(n) => Some(n), Err(_) => return "bad-op".into() },
+        };
         let with_identify = kv.get("identify").map(|s| *s == "1").unwrap_or(false);
+        let word = |s: &str| !s.is_empty() && s.chars().all(|c| c.is_ascii_alphanumeric() || "/._".contains(c));
+        let id_version = match kv.get("idv") {
+            None => "/verif/1".to_string(),
+            Some(s) if word(s) => s.to_string(),
+            Some(_) => return "bad-op".into(),
+        };
+        let id_agent = match kv.get("ida") {
+            None => Some("verif".to_string()),
+            Some(&"-") => None,
+            Some(s) if word(s) => Some(s.to_string()),
+            Some(_) => return "bad-op".into(),
+        };
+        let mpd = match kv.get("mpd") {
+            None => None,
+            Some(s) => match s.parse::<usize>() { Ok(n) if n <= 1000 => Some(n), _ => return "bad-op".into() },
+        };
+        // tcpc=<k~v/…> with k in nd ru nra nwb cot sot yms tmpd: fields of `TcpConfig` set by the user
+        let mut tcp_opts: Vec<(String, u64)> = Vec::new();
+        if let Some(s) = kv.get("tcpc") {
+            for item in s.split('/') {
+                let Some((k, v)) = item.split_once('~') else { return "bad-op".into() };
+                let Ok(v) = v.parse::<u64>() else { return "bad-op".into() };
+                let ok = match k {
+                    "nd" | "ru" => v <= 1,
+                    "nra" | "nwb" => (1..=64).contains(&v),
+                    "cot" | "sot" => (1..=3_600_000).contains(&v),
+                    "yms" => (1..=4096).contains(&v),
+                    "tmpd" => (1..=1000).contains(&v),
+                    _ => false,
+                };
+                if !ok {
+                    return "bad-op".into();
+                }
+                tcp_opts.push((k.to_string(), v));
+            }
+        }
         let with_bitswap = kv.get("bitswap").map(|s| *s == "1").unwrap_or(false);
         let mut known: Vec<(PeerId, Vec<Multiaddr>)> = Vec::new();
         if let Some(s) = kv.get("known") {
@@ -816,8 +935,28 @@ impl NodeBox {
 
         // ---- build the configuration with the public builder
         let _guard = self.rt().enter();
+        let mut yamux_given = String::new();
         if tcp {
-            builder = builder.with_tcp(TcpConfig { listen_addresses: listen, ..Default::default() });
+            let mut config = TcpConfig { listen_addresses: listen, ..Default::default() };
+            for (k, v) in &tcp_opts {
+                match k.as_str() {
+                    "nd" => config.nodelay = *v == 1,
+                    "ru" => config.reuse_port = *v == 1,
+                    "nra" => config.noise_read_ahead_frame_count = *v as usize,
+                    "nwb" => config.noise_write_buffer_size = *v as usize,
+                    "cot" => config.connection_open_timeout = Duration::from_millis(*v),
+                    "sot" => config.substream_open_timeout = Duration::from_millis(*v),
+                    "yms" => {
+                        config.yamux_config.set_max_num_streams(*v as usize);
+                    }
+                    _ => config.max_parallel_dials = *v as usize,
+                }
+            }
+            yamux_given = format!("{:?}", config.yamux_config).replace(' ', "");
+            builder = builder.with_tcp(config);
+        }
+        if let Some(n) = mpd {
+            builder = builder.with_max_parallel_dials(n);
         }
         if let Some(ms) = ka {
             builder = builder.with_keep_alive_timeout(Duration::from_millis(ms));
@@ -843,14 +982,21 @@ impl NodeBox {
         };
         let mut pumps: Vec<Pin<Box<dyn Future<Output = ()> + Send>>> = Vec::new();
         for spec in notifs {
-            let (config, handle) = notification::ConfigBuilder::new(ProtocolName::from(spec.name.clone()))
+            let mut b = notification::ConfigBuilder::new(ProtocolName::from(spec.name.clone()))
                 .with_max_size(spec.max)
                 .with_handshake(spec.hs)
                 .with_fallback_names(spec.fb)
-                .with_auto_accept_inbound(spec.mode == 'a')
-                .with_sync_channel_size(64)
-                .with_async_channel_size(64)
-                .build();
+                .with_auto_accept_inbound(spec.mode == 'a');
+            if let Some(n) = spec.sync {
+                b = b.with_sync_channel_size(n);
+            }
+            if let Some(n) = spec.asyn {
+                b = b.with_async_channel_size(n);
+            }
+            if let Some(d) = spec.dial {
+                b = b.with_dialing_enabled(d);
+            }
+            let (config, handle) = b.build();
             builder = builder.with_notification_protocol(config);
             let (tx, rx) = unbounded_channel();
             // a later configuration of the same name replaces the earlier one (and its pump)
@@ -884,26 +1030,57 @@ impl NodeBox {
             }));
         }
         if let Some(ms) = ping_ms {
-            let (config, stream) = if ms == 1 {
+            let (config, stream) = if ms == 1 && ping_failures.is_none() {
                 ping::Config::default()
             } else {
-                ping::ConfigBuilder::new().with_ping_interval(Duration::from_millis(ms)).build()
+                let mut b = ping::ConfigBuilder::new();
+                if ms != 1 {
+                    b = b.with_ping_interval(Duration::from_millis(ms));
+                }
+                if let Some(n) = ping_failures {
+                    b = b.with_max_failure(n);
+                }
+                b.build()
             };
             builder = builder.with_libp2p_ping(config);
             pumps.push(Box::pin(ping_task(i, stream, Arc::clone(&shared))));
         }
         if with_identify {
-            let (config, stream) = identify::Config::new("/verif/1".to_string(), Some("verif".to_string()));
+            let (config, stream) = identify::Config::new(id_version, id_agent);
             builder = builder.with_libp2p_identify(config);
             pumps.push(Box::pin(identify_task(i, stream, Arc::clone(&shared))));
         }
-        for (names, max) in kads {
+        for (names, max, opts) in kads {
             let mut b = kademlia::ConfigBuilder::new();
             if !names.is_empty() {
                 b = b.with_protocol_names(names);
             }
             if let Some(n) = max {
                 b = b.with_max_message_size(n);
+            }
+            for (k, v) in opts {
+                let n = v as usize;
+                b = match k.as_str() {
+                    "rf" => b.with_replication_factor(n),
+                    "ttl" => b.with_record_ttl(Duration::from_millis(v)),
+                    "upd" => b.with_routing_table_update_mode(if v == 0 {
+                        kademlia::RoutingTableUpdateMode::Manual
+                    } else {
+                        kademlia::RoutingTableUpdateMode::Automatic
+                    }),
+                    "val" => b.with_incoming_records_validation_mode(if v == 0 {
+                        kademlia::IncomingRecordValidationMode::Manual
+                    } else {
+                        kademlia::IncomingRecordValidationMode::Automatic
+                    }),
+                    "mr" => b.with_max_records(n),
+                    "mrs" => b.with_max_record_size(n),
+                    "mpk" => b.with_max_provider_keys(n),
+                    "mpa" => b.with_max_provider_addresses(n),
+                    "mppk" => b.with_max_providers_per_key(n),
+                    "pri" => b.with_provider_refresh_interval(Duration::from_millis(v)),
+                    _ => b.with_provider_record_ttl(Duration::from_millis(v)),
+                };
             }
             let (config, handle) = b.build();
             builder = builder.with_libp2p_kademlia(config);
@@ -1014,8 +1191,54 @@ impl NodeBox {
             manager.installed_transports().map(|t| format!("{t:?}").to_lowercase()).collect();
         transports.sort();
         let exec = if custom_exec { executor.spawned.load(Ordering::SeqCst).to_string() } else { "-".to_string() };
+        // what a connection's `ProtocolSet` (built the way every transport builds it) answers for every
+        // main and fallback name: the framing codec and the keep-alive setting
+        let pset: Vec<String> = {
+            let set = manager
+                .transport_handle(Arc::new(crate::executor::DefaultExecutor))
+                .protocol_set(crate::types::ConnectionId::from(0usize));
+            let mut all: Vec<&ProtocolName> = manager.protocol_names.iter().collect();
+            all.sort_by_key(|n| n.to_string());
+            all.iter()
+                .map(|name| {
+                    format!(
+                        "{name}>{}>{}",
+                        codec_str(&set.protocol_codec(name)),
+                        match set.verif_keep_alive(name) {
+                            Some(SubstreamKeepAlive::Yes) => "Y",
+                            Some(SubstreamKeepAlive::No) => "N",
+                            None => "?",
+                        }
+                    )
+                })
+                .collect()
+        };
+        // the protocol objects and the transport as constructed: every event loop reports what it holds when
+        // it starts (on a runtime thread); wait until all of them have
+        let noting = manager.protocols.len() - node.user.len() + usize::from(tcp);
+        let start = Instant::now();
+        while crate::verif::count_configs(&local) < noting && start.elapsed() < NOTES_DEADLINE {
+            std::thread::sleep(Duration::from_millis(2));
+        }
+        let mut tcp_note = "-".to_string();
+        let mut cfg: Vec<String> = Vec::new();
+        for (what, text) in crate::verif::take_configs(&local) {
+            let text = text.replace(' ', ",");
+            if what == "tcp" {
+                // the yamux configuration: its stream limit, and whether it is the one handed in
+                let (head, ym) = text.split_once(",ym=").unwrap_or((text.as_str(), ""));
+                let streams = ym
+                    .split_once("max_num_streams:")
+                    .map(|(_, r)| r.chars().take_while(|c| c.is_ascii_digit()).collect::<String>())
+                    .unwrap_or_else(|| "?".to_string());
+                tcp_note = format!("{head},yms={streams},ymsame={}", ym == yamux_given);
+            } else {
+                cfg.push(format!("{what}|{text}"));
+            }
+        }
+        cfg.sort();
         let record = format!(
-            "ok id={id} listen=[{}] mlisten=[{}] lim={}/{} known=[{}] tr=[{}] exec={exec} regs=[{}] names=[{}] svc=[{}]",
+            "ok id={id} listen=[{}] mlisten=[{}] lim={}/{} known=[{}] tr=[{}] exec={exec} regs=[{}] names=[{}] svc=[{}] pset=[{}] tcp=[{tcp_note}] cfg=[{}]",
             listen.join(","),
             mlisten.join(","),
             show(lim_in),
@@ -1025,6 +1248,8 @@ impl NodeBox {
             regs.join(";"),
             names.join(","),
             svc.join(";"),
+            pset.join(";"),
+            cfg.join(";"),
         );
 
         // ---- start the pumps
@@ -1127,6 +1352,10 @@ impl VerifBox for NodeBox {
                 Some((_, n)) => self.ask(&n.cmd, NodeCmd::Bandwidth),
                 None => "bad-op".into(),
             },
+            ["scores", i, j] => match (self.node(i), num(j).and_then(|j| self.peer_of(j))) {
+                (Some((_, n)), Some(peer)) => self.ask(&n.cmd, |r| NodeCmd::Scores(peer, r)),
+                _ => "bad-op".into(),
+            },
             ["listen", i] => match self.node(i) {
                 Some((_, n)) => self.ask(&n.cmd, NodeCmd::Listen),
                 None => "bad-op".into(),
@@ -1183,7 +1412,8 @@ impl VerifBox for NodeBox {
                 }
             }
             ["respond", i, p, k, len, tag] => {
-                let (Some((_, n)), Some(k), Some(len), Ok(tag)) = (self.node(i), num(k), num(len), tag.parse::<u8>())
+                let newest = if *k == "n" { Some(usize::MAX) } else { None };
+                let (Some((_, n)), Some(k), Some(len), Ok(tag)) = (self.node(i), newest.or_else(|| num(k)), num(len), tag.parse::<u8>())
                 else {
                     return "bad-op".into();
                 };
